@@ -256,7 +256,7 @@ class Main(Part):
 
     def budget(self, tier):
         return {"quick": dict(examples=35, shards=6, seconds=70, steps=16),
-                "thorough": dict(examples=400, shards=16, seconds=900, steps=25)}[tier]
+                "thorough": dict(examples=400, shards=16, seconds=600, steps=25)}[tier]
 
     def strategy(self, tier):
         return st.just(None)
